@@ -47,36 +47,76 @@ func C04(c *core.Ctx) {
 func c04SelfFeeding(c *core.Ctx) {
 	p := c.P
 	n := 0
-	for _, name := range []string{"calculateFinalSum", "calculateBaseCategoryTotal"} {
-		fd := p.Func("tax", "Total", name)
-		if fd == nil {
-			c.Ob("C04-R1", "UNRESOLVED:tax.Total."+name, token.NoPos, false, "method not found")
-			continue
+	// the recalculation pass: the exported tax.(*Total).Calculate and what it calls in its package
+	var pass []*core.FuncDecl
+	if root := p.Func("tax", "Total", "Calculate"); root != nil {
+		seen := map[*types.Func]bool{root.Obj: true}
+		pass = append(pass, root)
+		for i := 0; i < len(pass); i++ {
+			fd := pass[i]
+			ast.Inspect(fd.Decl.Body, func(m ast.Node) bool {
+				if call, ok := m.(*ast.CallExpr); ok {
+					if fn := core.Callee(fd.Pkg.TypesInfo, call); fn != nil && fn.Pkg() == root.Obj.Pkg() && !seen[fn] {
+						seen[fn] = true
+						if cfd := p.DeclOf(fn); cfd != nil {
+							pass = append(pass, cfd)
+						}
+					}
+				}
+				return true
+			})
 		}
+	} else {
+		c.Ob("C04-R1", "UNRESOLVED:tax.Total.Calculate", token.NoPos, false, "method not found")
+	}
+	for _, fd := range pass {
 		info := fd.Pkg.TypesInfo
-		// accumulated field locations: direct (L = L.Add) and through a local (x := *p.F; …; p.F = &x)
+		ld := core.NewLocalDefs(info, fd.Decl.Body)
+		// accumulated field locations: direct (L = L.Add) and through a local that is stored
+		// back into a field (p.F = &x, p.F = x) and was seeded from that field
 		type accLoc struct {
 			expr ast.Expr
 			pos  token.Pos
+			at   ast.Node
 		}
 		var locs []accLoc
 		for _, a := range FindAccums(p, fd) {
 			d := ast.Unparen(a.Dest)
 			if _, isID := d.(*ast.Ident); !isID {
-				locs = append(locs, accLoc{d, a.Assign.Pos()})
+				locs = append(locs, accLoc{d, a.Assign.Pos(), a.Assign})
 				continue
 			}
-			// local accumulator stored back into a field: p.F = &x with x seeded from *p.F
 			v := core.VarOf(info, d)
+			if v == nil {
+				continue
+			}
 			ast.Inspect(fd.Decl.Body, func(m ast.Node) bool {
 				as, ok := m.(*ast.AssignStmt)
-				if !ok || len(as.Lhs) != 1 || len(as.Rhs) != 1 {
+				if !ok || len(as.Lhs) != 1 || len(as.Rhs) != 1 || core.FieldOf(info, as.Lhs[0]) == nil {
 					return true
 				}
-				if u, ok := ast.Unparen(as.Rhs[0]).(*ast.UnaryExpr); ok && u.Op == token.AND && core.VarOf(info, u.X) == v && v != nil {
-					if core.FieldOf(info, as.Lhs[0]) != nil {
-						locs = append(locs, accLoc{as.Lhs[0], a.Assign.Pos()})
+				r := ast.Unparen(as.Rhs[0])
+				if u, ok := r.(*ast.UnaryExpr); ok && u.Op == token.AND {
+					r = ast.Unparen(u.X)
+				}
+				if core.VarOf(info, r) != v {
+					return true
+				}
+				// does the local ever take its value from the location it is stored in?
+				fed := false
+				for _, def := range ld.All(v) {
+					if def.RHS == nil {
+						continue
 					}
+					ast.Inspect(def.RHS, func(k ast.Node) bool {
+						if e, ok := k.(ast.Expr); ok && sameLoc(info, e, as.Lhs[0]) {
+							fed = true
+						}
+						return true
+					})
+				}
+				if fed {
+					locs = append(locs, accLoc{as.Lhs[0], a.Assign.Pos(), a.Assign})
 				}
 				return true
 			})
@@ -89,25 +129,44 @@ func c04SelfFeeding(c *core.Ctx) {
 			}
 			seen[ks] = true
 			n++
-			// an assignment to the same location, at the top level of the function body, before the accumulation,
-			// whose value does not mention the location itself
+			// an assignment to the same location whose value does not mention the location itself,
+			// standing unconditionally before the accumulation: directly in a statement list
+			// that, later on, holds the statement containing the accumulation
 			reset := false
-			for _, s := range fd.Decl.Body.List {
-				as, ok := s.(*ast.AssignStmt)
-				if !ok || as.Pos() >= l.pos {
-					continue
+			var lists [][]ast.Stmt
+			ast.Inspect(fd.Decl.Body, func(m ast.Node) bool {
+				switch x := m.(type) {
+				case *ast.BlockStmt:
+					lists = append(lists, x.List)
+				case *ast.CaseClause:
+					lists = append(lists, x.Body)
 				}
-				for i, lh := range as.Lhs {
-					if sameLoc(info, lh, l.expr) && i < len(as.Rhs) {
-						self := false
-						ast.Inspect(as.Rhs[i], func(m ast.Node) bool {
-							if e, ok := m.(ast.Expr); ok && sameLoc(info, e, l.expr) {
-								self = true
+				return true
+			})
+			for _, list := range lists {
+				holder := -1
+				for i, s := range list {
+					if s.Pos() <= l.at.Pos() && l.at.End() <= s.End() {
+						holder = i
+					}
+				}
+				for i := 0; i < holder; i++ {
+					as, ok := list[i].(*ast.AssignStmt)
+					if !ok {
+						continue
+					}
+					for j, lh := range as.Lhs {
+						if sameLoc(info, lh, l.expr) && j < len(as.Rhs) {
+							self := false
+							ast.Inspect(as.Rhs[j], func(m ast.Node) bool {
+								if e, ok := m.(ast.Expr); ok && sameLoc(info, e, l.expr) {
+									self = true
+								}
+								return true
+							})
+							if !self {
+								reset = true
 							}
-							return true
-						})
-						if !self {
-							reset = true
 						}
 					}
 				}
@@ -116,7 +175,7 @@ func c04SelfFeeding(c *core.Ctx) {
 				fmt.Sprintf("%s accumulates into %s without first resetting it unconditionally: when a stored summary is recalculated the previous value is counted again, so calculating twice gives a different document", fd.Name(), ks))
 		}
 	}
-	if n < 2 {
+	if n < 1 {
 		c.Ob("C04-R1", "UNRESOLVED:accumulated-fields", token.NoPos, false, fmt.Sprintf("only %d accumulated fields found in the tax total pass", n))
 	}
 	// bill.Totals.reset covers the document totals: decided under C01-R2; the pass calls reset before anything else
